@@ -32,7 +32,10 @@ def shard(ctx, budget_s):
             q, id_, flags, qs = dns.gen_query(rng, nq=nq)
             if len(q) > 1400:
                 continue
-            if lab.identified(q, "udp") != sigref.NOMATCH:
+            # "not itself completing another protocol's signature" is decided by the published signatures alone: a
+            # conforming query that completes none of them is DNS's to answer, whatever the compiled matcher makes of it
+            # (none of the recorded matcher divergences concerns a message that is a complete IN/A query)
+            if sigref.identify(q, True) != sigref.NOMATCH:
                 ctx.stats["skipped_completes_signature"] += 1
                 continue
             a = lab.ask(q, "udp", v6=False)
